@@ -434,6 +434,22 @@ def run(prop, tier, seed):
         import check_macro
         check_macro.run_macro_level(res, prop, tier, seed)
 
+    if prop == "C17":
+        # the argument pipeline of one function (Args.tla): one evaluation shared by all generic
+        # instantiations, every display list (any sub-sequence in any order) mapped back by
+        # identity; three shortcuts (two of them proposed by seeding sub-agents) must fail
+        r = V.tlc_mc("MC_Args", "Args_q" if tier == "quick" else "Args_t", workers=4)
+        res.add_mc("Args", r)
+        if not r.get("ok"):
+            raise V.ToolError(f"MC_Args: {r.get('violated') or r.get('error')}")
+        for cfg, want in (("Args_v_by_label", "RowMeasuresItsArgument"),
+                          ("Args_v_display_position", "RowMeasuresItsArgument"),
+                          ("Args_v_fn_in_cell", "RowRunsItsInstance")):
+            r = V.tlc_mc("MC_Args", cfg, workers=1, coverage=False)
+            res.extra.setdefault("necessity_variants", []).append({"config": cfg, "expected": [want], "got": r.get("violated")})
+            if r.get("violated") != want:
+                raise V.ToolError(f"{cfg}: expected {want} to fail, got {r.get('violated') or r.get('error')}")
+
     if prop == "C20":
         for cfg in (["Painter_q", "Painter_q2"] if tier == "quick" else ["Painter_q", "Painter_q2", "Painter_t"]):
             r = V.tlc_mc("MC_Painter", cfg, workers=8)
